@@ -220,12 +220,12 @@ def replay_refuse(cex, d):
             json.dump(js, open(p + '/arraydescription.json', 'w'))
             L = int(fx['length'])
             if L > 10 ** 7:
-                return {'reproduced': False, 'detail': 'too large'}
+                return {'reproduced': False, 'skip': True, 'detail': 'too large'}
             open(p + '/arrayvalues.bin', 'wb').write(b'\0' * L)
         else:
             n = int(fx['n'])
             if n > 5000:
-                return {'reproduced': False, 'detail': 'too large'}
+                return {'reproduced': False, 'skip': True, 'detail': 'too large'}
             if target == 'array':
                 if n:
                     darr.asarray(p, rp.values(np_, n, atom, numtype))
@@ -239,7 +239,7 @@ def replay_refuse(cex, d):
             if ob == 'BAD-size':
                 delta = int(fx['delta'])
                 if abs(delta) > 10 ** 7:
-                    return {'reproduced': False, 'detail': 'too large'}
+                    return {'reproduced': False, 'skip': True, 'detail': 'too large'}
                 fp = dpath + '/arrayvalues.bin'
                 sz = os.path.getsize(fp)
                 if delta > 0:
